@@ -529,10 +529,31 @@ def shape_cases(quick):
         cs.append(Case('deep_children', ['mode exact'] + [f'deepchild {n} {k}' for n in (100, 2000, 15000) for k in 'RPAH']))
     return cs
 
+def mark_clears_first(repo):
+    """does GC_Mark of the tree under test clear every mark bit before its first phase?  (same reading as translate/g_gcmark.py:
+    `markClearsFirst`; the exact-mode replica of GC_Mark's phases in the harness follows it through -DC01_MARK_CLEARS_FIRST)"""
+    try:
+        src = open(f'{repo}/src/GC.c', encoding='utf-8', errors='replace').read()
+        m = re.search(r'void\s+GC_Mark\s*\(struct GC\*\s*gc\)\s*\{(.*?)mark\(current\(Thread\)', src, flags=re.S)
+        if not m: return False
+        pro = re.sub(r'/\*.*?\*/', ' ', m.group(1), flags=re.S)
+        pro = re.sub(r'\s+', ' ', pro.split('return; }', 1)[-1]).strip()
+        if 'marked = false' in pro or 'marked = 0' in pro: return True
+        mc = re.fullmatch(r'(\w+)\(gc\);', pro)
+        if mc:
+            mb = re.search(r'\b' + mc.group(1) + r'\s*\(struct GC\*\s*gc\)\s*\{(.*?)\n\}', src, flags=re.S)
+            return bool(mb and re.search(r'marked = (false|0)', mb.group(1)))
+        return False
+    except OSError:
+        return False
+
 class C01(Spec):
     id = 'C01'; engine = 'gcmark'; harness = 'h_gcmark'; driver = 'drv_gcmark'
     generators = ('GcMark',)
     harness_timeout = 600
+    @property
+    def harness_defines(self):
+        return ('C01_MARK_CLEARS_FIRST',) if mark_clears_first(core.REPO) else ()
     technique = ('Lean 4 proof: worklist model of GC_Mark_Item/GC_Recurse/GC_Mark_And_Recurse/GC_Mark/GC_Sweep is complete and sound for graph '
                  'reachability through every object representation; source-derived tables and fix-sensitive shapes regenerated each run; '
                  'white-box differential check of mark bits and swept sets against the real collector; shadow-graph oracle on the real GC_Mark')
@@ -644,6 +665,8 @@ class C01(Spec):
         for i in range(len(ls) - 1):
             if ls[i].startswith('O x ') and ls[i + 1].startswith('R rec=') and ls[i + 1] not in ('R rec=agree', 'R rec=skipped'):
                 return f'worklist marker `{ls[i]}` but recursive marker: `{ls[i + 1]}`'
+            if ls[i + 1] == 'R rel=differ':
+                return f'collection `{ls[i - 1]}`: no pending item owns anything, yet Cello.Heap.release does not finalise exactly the pending list'
             if ls[i + 1] == 'R retype=differ':
                 return f're-typing op `{ls[i]}`: the interpreter\'s object differs from Obj.assignFrom / copyOf / cleared (the operation the theorems are about)'
         return None
